@@ -1,6 +1,8 @@
 """C14 / F2: a failed create_spend_transaction must leave the wallet's record of used outputs unchanged,
 so that a later affordable spend still succeeds."""
-import chainlib
+import os, sys
+sys.path.insert(0, os.path.dirname(os.path.dirname(os.path.abspath(__file__))))
+from native import chainlib
 from skepticoin.wallet import create_spend_transaction
 from skepticoin.signing import SECP256k1PublicKey
 from skepticoin.params import SASHIMI_PER_COIN
